@@ -39,6 +39,13 @@ CHECKS = {
   "note": "Trusted: blueprint evaluator (dsim/bp.py), FNode evaluator used inside the peer (dsim/feval.py), reference stack model. Domains are finite and small (<=512 assignments); systems, goals and histories are sampled. Real-valued bisection excluded as the property says.",
   "technique": "deterministic simulation: optimiser loop vs. tape-scheduled model-choosing peer, brute-force reference oracle, bounded-liveness (solver-call budget), minimisation + exact replay",
  },
+ "C17": {
+  "category": "fault_enumeration",
+  "text": "Seeded simulation of the real SmtLibSolver (and the factory shortcuts) over simulated pipes against a strict reference SMT-LIB solver that records every protocol breach. Fault-free family: tape-chosen read chunking (short reads inside replies), latencies in virtual time, model choice; oracles = legal stream, push/pop mirrored, replies in sync (no unread output, no misattribution, no blocking with the solver idle), verdict = brute-force truth, values/models = the solver's model. Fault family: one injected peer/pipe fault per run (unknown, (error ...), death before/after a reply, death at start-up, EIO, stall); a call may raise or block but may never return wrong data. Sampling, not proof.",
+  "design_ref": "DESIGN.md section 4 (C17)",
+  "note": "Trusted: the reference solver's reading of SMT-LIB 2.6 (dsim/refsolver.py, dsim/sexpr.py; calibrated by hand against cvc5 1.0 and z3 4.8 - reset-assertions drops declarations as in cvc5), the blueprint evaluator, the pipe model (writes <= PIPE_BUF atomic; writes after the child's own (exit) are discarded). Known finding F6 (reset_assertions keeps declared symbols) is recorded in known_findings.json and reported as KNOWN-FINDING.",
+  "technique": "deterministic simulation with fault injection: simulated subprocess pipes + virtual clock, strict reference peer, seeded histories/chunking/faults, minimisation + exact replay",
+ },
 }
 
 ORDER = ["C04", "C14", "C15", "C16", "C17", "C18", "C19"]
